@@ -1096,8 +1096,9 @@ type CallTemplateExpression struct {
 
 func (cte CallTemplateExpression) IsNode() bool { return true }
 func (cte CallTemplateExpression) Write(w io.Writer, indent int) error {
-	// Rewrite to new call syntax
-	return writeIndent(w, indent, `@`, cte.Expression.Value)
+	// Rewrite to new call syntax, written the way the new syntax is written (the expression goes through gofmt):
+	// the next run parses the output as a templ element expression.
+	return TemplElementExpression{Expression: cte.Expression}.Write(w, indent)
 }
 
 // TemplElementExpression can be used to create and render a template using data.
